@@ -8,15 +8,65 @@ import warnings
 import numpy as np
 
 warnings.simplefilter('ignore')
-
-import pydl  # noqa: E402
+import os  # noqa: E402
 from astropy import units as u  # noqa: E402
+from astropy.io import fits as _fits  # noqa: E402
+from astropy.io import ascii as _ascii  # noqa: E402,F401
+
+
+def global_state():
+    """process-global settings a library must leave alone"""
+    from astropy.config import ConfigItem
+    conf = {k: repr(getattr(_fits.conf, k)) for k, v in vars(type(_fits.conf)).items() if isinstance(v, ConfigItem)}
+    return {'np.geterr': dict(np.geterr()), 'np.printoptions': {k: repr(v) for k, v in np.get_printoptions().items()},
+            'astropy.io.fits.conf': conf, 'os.environ': dict(os.environ)}
+
+
+def state_diff(a, b):
+    out = []
+    for k in a:
+        if a[k] != b[k]:
+            keys = sorted(set(a[k]) | set(b[k]))
+            out.append({'what': k, 'changed': {x: [a[k].get(x), b[k].get(x)] for x in keys if a[k].get(x) != b[k].get(x)}})
+    return out
+
+
+STATE0 = global_state()
+import pydl  # noqa: E402
 from pydl.goddard.astro import airtovac, vactoair  # noqa: E402
 from pydl.photoop.sdssio import sdssflux2ab  # noqa: E402
 from pydl.pydlspec2d import spec2d  # noqa: E402
 from pydl.pydlutils.trace import xy2traceset  # noqa: E402
 
 UNITS = {'AA': u.Angstrom, 'nm': u.nm, 'um': u.um}
+
+# every spelling of a boolean keyword ('omit' = keyword not given)
+BOOL_TOKENS = {'False': False, '0': 0, 'None': None, 'True': True, '1': 1, 'npFalse': np.bool_(False), 'npTrue': np.bool_(True)}
+
+
+def layout(a, how):
+    """the same 2-D array (values, dtype, shape) in another memory layout"""
+    if a is None or how in (None, 'C'):
+        return a
+    if how == 'F':
+        return np.asfortranarray(a)
+    if how == 'T':                      # transposed view of an [npix, ntrace] array (IDL order)
+        return np.ascontiguousarray(a.T).T
+    if how == 'strided':                # every other column of a wider array
+        big = np.zeros((a.shape[0], 2 * a.shape[1] + 1), dtype=a.dtype)
+        big[:, 1::2] = a
+        return big[:, 1::2]
+    if how == 'rowstrided':             # every other row of a taller array
+        big = np.zeros((2 * a.shape[0] + 1, a.shape[1]), dtype=a.dtype)
+        big[1::2, :] = a
+        return big[1::2, :]
+    if how == 'rev':                    # negative stride along the pixel axis
+        return np.ascontiguousarray(a[:, ::-1])[:, ::-1]
+    if how == 'revrows':                # negative stride along the trace axis
+        return np.ascontiguousarray(a[::-1, :])[::-1, :]
+    if how == 'Frev':
+        return np.asfortranarray(a[::-1, ::-1])[::-1, ::-1]
+    raise ValueError(how)
 
 
 def fl(x):
@@ -139,14 +189,27 @@ def flux_job(j):
     flux = np.array(j['flux'], dtype='d').reshape(-1, 5)
     keep = flux.copy()
     mode = j['mode']
-    if mode == 'flux':
+    if j.get('kw') is not None:
+        # explicit spellings of the two boolean keywords (the expected form follows from their truth values)
+        kw = {k: BOOL_TOKENS[v] for k, v in j['kw'].items() if v != 'omit'}
+        if j.get('positional'):
+            r = sdssflux2ab(flux, *[BOOL_TOKENS[j['kw'][k]] for k in ('magnitude', 'ivar')])
+        else:
+            r = sdssflux2ab(flux, **kw)
+    elif mode == 'flux':
         r = sdssflux2ab(flux)
     elif mode == 'mag':
         r = sdssflux2ab(flux, magnitude=True)
     else:
         r = sdssflux2ab(flux, ivar=True)
-    return {'out': [fls(row) for row in r], 'input_unchanged': bool(np.array_equal(keep, flux)),
-            'shape': list(r.shape), 'same_object': bool(r is flux)}
+    out = {'out': [fls(row) for row in r], 'input_unchanged': bool(np.array_equal(keep, flux)),
+           'shape': list(r.shape), 'same_object': bool(r is flux)}
+    if j.get('kw') is None:
+        # the caller changes the SAME array in place and calls again: the answer must be that of a fresh array with these values
+        kw = {'flux': {}, 'mag': {'magnitude': True}, 'ivar': {'ivar': True}}[mode]
+        flux += 0.5
+        out['inplace_same'] = bool(np.array_equal(sdssflux2ab(flux, **kw), sdssflux2ab(flux.copy(), **kw)))
+    return out
 
 
 class NPProxy(object):
@@ -191,7 +254,7 @@ def run_filter(flux, wave, mask, toair):
     spec2d.djs_maskinterp = mi
     spec2d.traceset2xy = t2xy
     try:
-        kw = {'toair': toair}
+        kw = {} if toair == 'omit' else {'toair': BOOL_TOKENS[toair] if isinstance(toair, str) else toair}
         if mask is not None:
             kw['mask'] = mask
         if wave['kind'] == 'waveimg':
@@ -219,34 +282,55 @@ def filter_job(j):
     flux2 = np.array(j['flux2'], dtype=dt).reshape(nT, nx)
     loglam = np.array([[l0 + dl * k for k in range(nx)] for l0, dl in zip(j['loglam0'], j['dloglam'])], dtype='d')
 
+    lay = j.get('layout') or {}
+
     def mk_wave(ll):
         if j['wave'] == 'waveimg':
-            return {'kind': 'waveimg', 'img': 10.0 ** ll}
+            return {'kind': 'waveimg', 'img': layout(10.0 ** ll, lay.get('wave'))}
         x = np.tile(np.arange(nx, dtype='d'), nT).reshape(nT, nx)
         return {'kind': 'wset', 'wset': xy2traceset(x, ll, ncoeff=3)}
     wave = mk_wave(loglam)
     mask = None
     if j.get('mask') is not None:
-        mask = build_mask(j['mask'], j.get('mask_dtype', 'i4'), nT, nx)
-    toair = bool(j.get('toair'))
+        mask = layout(build_mask(j['mask'], j.get('mask_dtype', 'i4'), nT, nx), lay.get('mask'))
+    toair = j['toair_token'] if j.get('toair_token') else bool(j.get('toair'))
     a, b, c = j['a'], j['b'], j['c']
+    flux = layout(flux, lay.get('flux'))
+    flux2 = layout(flux2, lay.get('flux'))
     keep = flux.copy()
     mkeep = None if mask is None else mask.copy()
     r1, rec = run_filter(flux, wave, mask, toair)
     unchanged = bool(np.array_equal(keep, flux))
     r2, _ = run_filter(flux2, wave, mask, toair)
-    r3, _ = run_filter((a * flux + b * flux2).astype(dt), wave, mask, toair)
-    rc, _ = run_filter(np.full((nT, nx), c, dtype=dt), wave, mask, toair)
+    r3, _ = run_filter(layout((a * flux + b * flux2).astype(dt), lay.get('flux')), wave, mask, toair)
+    rc, _ = run_filter(layout(np.full((nT, nx), c, dtype=dt), lay.get('flux')), wave, mask, toair)
     # every trace constant at its OWN level: a band of a trace is a weighted mean of that trace's flux only
     levels = j.get('levels')
     rl = None
     if levels:
         lv = np.array(levels, dtype=dt).reshape(nT, 1) * np.ones((1, nx), dtype=dt)
-        rl, _ = run_filter(lv, wave, mask, toair)
+        rl, _ = run_filter(layout(lv, lay.get('flux')), wave, mask, toair)
+    if lay:
+        # the same call on C-contiguous copies of the same three arrays
+        wc = wave if wave['kind'] != 'waveimg' else {'kind': 'waveimg', 'img': np.array(wave['img'], order='C')}
+        rC, _ = run_filter(np.array(flux, order='C'), wc, None if mask is None else np.array(mask, order='C'), toair)
     out = {'res': [fls(r) for r in r1], 'res2': [fls(r) for r in r2], 'res_lin': [fls(r) for r in r3],
            'res_const': [fls(r) for r in rc], 'input_unchanged': unchanged, 'shape': list(r1.shape), 'res_dtype': str(r1.dtype)}
     if rl is not None:
         out['res_levels'] = [fls(r) for r in rl]
+    if lay:
+        out['res_contig'] = [fls(r) for r in rC]
+        out['flags'] = {'flux': [bool(flux.flags.c_contiguous), bool(flux.flags.f_contiguous)],
+                        'wave': None if wave['kind'] != 'waveimg' else [bool(wave['img'].flags.c_contiguous), bool(wave['img'].flags.f_contiguous)],
+                        'mask': None if mask is None else [bool(mask.flags.c_contiguous), bool(mask.flags.f_contiguous)]}
+    # the caller changes the SAME flux array in place and calls again: the answer must be that of a fresh array with these values
+    work = np.array(flux, order='C')
+    ra0, _ = run_filter(work, wave, mask, toair)
+    work += np.asarray(0.5, dtype=dt)
+    ra1, _ = run_filter(work, wave, mask, toair)
+    ra2, _ = run_filter(work.copy(), wave, mask, toair)
+    out['inplace_same'] = bool(np.array_equal(ra1, ra2))
+    out['inplace_pair'] = [[fls(r) for r in ra1], [fls(r) for r in ra2]]
     # the same pixels stored in the opposite order (flux, wavelength solution and mask reversed along the pixel axis)
     try:
         rr, _ = run_filter(np.ascontiguousarray(flux[:, ::-1]), mk_wave(np.ascontiguousarray(loglam[:, ::-1])),
@@ -262,8 +346,9 @@ def filter_job(j):
         out['mask_unchanged'] = bool(mask.dtype == mkeep.dtype and np.array_equal(mask, mkeep, equal_nan=True)) if mask.dtype.kind == 'f' \
             else bool(mask.dtype == mkeep.dtype and np.array_equal(mask, mkeep))
         out['mask_dtype'] = str(mask.dtype)
-        junk = flux.copy()
-        junk[bad] = np.array(j['junk'], dtype=dt)[: int(bad.sum())] if j.get('junk') else 1.0e6
+        junk = np.array(flux, order='C')
+        junk[np.array(bad, order='C')] = np.array(j['junk'], dtype=dt)[: int(bad.sum())] if j.get('junk') else 1.0e6
+        junk = layout(junk, lay.get('flux'))
         rj, rec_junk = run_filter(junk, wave, mask, toair)
         out['res_junk'] = [fls(r) for r in rj]
         out['good_per_trace'] = [int((mask[t] == 0).sum()) for t in range(nT)]
@@ -283,6 +368,7 @@ def filter_job(j):
         return out
     out['weights_recorded'] = True
     fi = rec['flux_interp'] if mask is not None else flux
+    ld = np.array(ld, order='C')
     out['maskinterp_called'] = rec['flux_interp'] is not None
     if fi is None:
         fi = flux   # the mask was not applied through djs_maskinterp; the mask-independence check decides
@@ -324,8 +410,60 @@ def restore(a, storage):
     return a.astype(storage)
 
 
+def restore2(a, storage):
+    """2-D: storage type or memory layout ('layout:<how>')"""
+    if isinstance(storage, str) and storage.startswith('layout:'):
+        return layout(np.asarray(a, dtype='d'), storage[7:])
+    return restore(a, storage)
+
+
 def same(a, b):
     return bool(np.array_equal(np.asarray(a), np.asarray(b)) and getattr(a, 'dtype', None) == getattr(b, 'dtype', None))
+
+
+def leg_eval(coeff, xn):
+    """sum_j coeff[j] P_j(xn) by the three-term recurrence (independent of pydl)"""
+    p0, p1 = np.ones_like(xn), xn
+    out = coeff[0] * p0
+    for k in range(1, len(coeff)):
+        out = out + coeff[k] * p1
+        p0, p1 = p1, ((2 * k + 1) * xn * p1 - k * p0) / (k + 1)
+    return out
+
+
+def wsetseq_job(j):
+    """several wavelength solutions given as trace sets on the SAME pixel grid (same function, order, xmin, xmax) but with
+    different coefficients and x-jump parameters, used one after the other in this process: filter_thru(flux, wset=...) against
+    filter_thru(flux, waveimg=...) with the wavelength image computed here from the same coefficients"""
+    from astropy.io import fits
+    from pydl.pydlutils.trace import TraceSet
+    nT, nx = j['nT'], j['nx']
+    flux = np.array(j['flux'], dtype='d').reshape(nT, nx)
+    outs = []
+    for sset in j['sets']:
+        coeff = np.array(sset['coeff'], dtype='d')
+        nc = coeff.shape[1]
+        xmin, xmax = 0.0, float(nx - 1)
+        cols = [fits.Column(name='FUNC', format='16A', array=np.array(['legendre'])),
+                fits.Column(name='XMIN', format='D', array=np.array([xmin])), fits.Column(name='XMAX', format='D', array=np.array([xmax])),
+                fits.Column(name='COEFF', format='%dD' % (nT * nc), dim='(%d,%d)' % (nc, nT), array=coeff.reshape(1, nT, nc))]
+        x = np.arange(nx, dtype='d')
+        if sset.get('jump') is not None:
+            lo, hi, val = sset['jump']
+            cols += [fits.Column(name=n, format='D', array=np.array([v], dtype='d')) for n, v in (('XJUMPLO', lo), ('XJUMPHI', hi), ('XJUMPVAL', val))]
+            x = x + np.minimum(np.maximum((x - lo) / (hi - lo), 0.0), 1.0) * val
+        xn = 2.0 * (x - 0.5 * (xmin + xmax)) / (xmax - xmin)
+        loglam = np.array([leg_eval(coeff[t], xn) for t in range(nT)])
+        try:
+            ws = TraceSet(fits.BinTableHDU.from_columns(cols).data)
+            r_w = spec2d.filter_thru(flux, wset=ws, toair=bool(sset.get('toair')))
+            r_i = spec2d.filter_thru(flux, waveimg=10.0 ** loglam, toair=bool(sset.get('toair')))
+            outs.append({'wset': [fls(r) for r in r_w], 'waveimg': [fls(r) for r in r_i],
+                         'lam_range': [fl(10.0 ** loglam.min()), fl(10.0 ** loglam.max())],
+                         'monotone': bool(np.all(np.diff(loglam, axis=1) > 0))})
+        except Exception as e:  # noqa: BLE001
+            outs.append(err(e))
+    return {'results': outs}
 
 
 def storage_job(j):
@@ -349,7 +487,7 @@ def storage_job(j):
         keep = a.copy()
         kw = {'flux': {}, 'mag': {'magnitude': True}, 'ivar': {'ivar': True}}[j['mode']]
         r = sdssflux2ab(a, **kw)
-        ref = sdssflux2ab(a.astype('d'), **kw)
+        ref = sdssflux2ab(np.array(a, dtype='d', order='C'), **kw)
         return {'out': fls(r), 'ref': fls(ref), 'input_unchanged': same(a, keep), 'dtype': str(r.dtype),
                 'aliases_input': bool(np.shares_memory(r, a)), 'numbers': fls(a)}
     if fn == 'filter_thru':
@@ -357,17 +495,19 @@ def storage_job(j):
         flux64 = np.array(j['values'], dtype='d').reshape(nT, nx)
         loglam = np.array([[l0 + dl * k for k in range(nx)] for l0, dl in zip(j['loglam0'], j['dloglam'])], dtype='d')
         wave64 = 10.0 ** loglam
-        flux = restore(flux64, st)
-        wave = restore(wave64, j.get('wave_storage', 'd')) if j.get('wave_storage') else wave64
+        flux = restore2(flux64, st)
+        wave = restore2(wave64, j.get('wave_storage', 'd')) if j.get('wave_storage') else wave64
         kw, kw64 = {}, {}
         if j.get('mask') is not None:
             m = np.array(j['mask'], dtype='i4').reshape(nT, nx)
             kw['mask'] = (m != 0) if j.get('mask_storage') == 'bool' else m.astype(j.get('mask_storage', 'i4'))
+            kw['mask'] = layout(kw['mask'], j.get('mask_layout'))
             kw64['mask'] = m
         fkeep, wkeep = flux.copy(), wave.copy()
         mkeep = kw['mask'].copy() if 'mask' in kw else None
         r = spec2d.filter_thru(flux, waveimg=wave, **kw)
-        ref = spec2d.filter_thru(flux.astype('d'), waveimg=wave.astype('d'), **kw64)
+        # reference: the same numbers as C-contiguous float64 arrays
+        ref = spec2d.filter_thru(np.array(flux, dtype='d', order='C'), waveimg=np.array(wave, dtype='d', order='C'), **kw64)
         unchanged = same(flux, fkeep) and same(wave, wkeep) and (mkeep is None or same(kw['mask'], mkeep))
         return {'out': fls(r), 'ref': fls(ref), 'input_unchanged': bool(unchanged), 'dtype': str(r.dtype),
                 'aliases_input': bool(np.shares_memory(r, flux)), 'shape': list(r.shape)}
@@ -389,6 +529,8 @@ def job(j):
             return flux_job(j)
         if k == 'filter':
             return filter_job(j)
+        if k == 'wsetseq':
+            return wsetseq_job(j)
         return {'err': 'BadJob'}
     except Exception as e:  # noqa: BLE001 - the error class is the observation
         return err(e)
@@ -396,7 +538,10 @@ def job(j):
 
 def main():
     jobs = json.load(sys.stdin)
-    json.dump({'pydl_file': pydl.__file__, 'results': [job(j) for j in jobs]}, sys.stdout)
+    state1 = global_state()
+    results = [job(j) for j in jobs]
+    json.dump({'pydl_file': pydl.__file__, 'results': results,
+               'globals_changed_by_import': state_diff(STATE0, state1), 'globals_changed_by_calls': state_diff(state1, global_state())}, sys.stdout)
 
 
 if __name__ == '__main__':
